@@ -16,6 +16,8 @@ import Driver.C05
 import Driver.C10
 import Driver.C01
 import Driver.C11
+import Driver.C04
+import Driver.C03
 
 def main (args : List String) : IO UInt32 := do
   match args with
@@ -37,4 +39,6 @@ def main (args : List String) : IO UInt32 := do
   | ["c10"] => Driver.C10.run; return 0
   | ["c01"] => Driver.C01.run; return 0
   | ["c11"] => Driver.C11.run; return 0
+  | ["c04"] => Driver.C04.run; return 0
+  | ["c03"] => Driver.C03.run; return 0
   | _ => IO.eprintln "usage: bufmodel <property-protocol>"; return 2
